@@ -25,6 +25,13 @@ class Abort(KeyboardInterrupt):
     """a proper subclass of a privileged exception type"""
 
 
+class Empty(Exception):
+    """an exception whose instances are falsy (a collection-like error that is raised empty)"""
+    def __len__(self):
+        return 0
+
+
+EXC['Empty'] = Empty
 EXC['Mismatch'] = Mismatch
 EXC['Abort'] = Abort
 CMP = {'<': operator.lt, '<=': operator.le, '==': operator.eq, '!=': operator.ne,
